@@ -397,11 +397,10 @@ CHECKS = {
         "text": "For the three built-in LUTs and four jittered user LUTs "
                 "(tuple, path, registered identifier; area- and volume-"
                 "based): every node, the centroid and three edge mid-points "
-                "of every Delaunay simplex (quick: every k-th simplex of "
-                "the large tables), a point just inside and just outside "
+                "of every Delaunay simplex, a point just inside and just outside "
                 "every hull edge and far points, mapped into the data space "
                 "of 16 configurations (channel width x flow rate x pixel "
-                "size x viscosity): ~5*10^5 probes agree with the "
+                "size x viscosity): ~4.4*10^6 probes agree with the "
                 "reference to 1e-9 and are NaN exactly outside the hull. "
                 "Laws: proportionality to viscosity and flow rate, joint "
                 "geometric rescaling, all 63 batch subsets of 6 probes "
